@@ -3,6 +3,7 @@ package main
 // Contract expression -> SMT translation.
 
 import (
+	"regexp"
 	"fmt"
 	"go/constant"
 	"go/types"
@@ -24,6 +25,10 @@ type cenv struct {
 	side  *[]string // heap well-formedness facts about loaded terms
 	qside *[]string // the same for terms under a quantifier (guards inside the binder)
 	qbind []string  // binders "(name Sort)" of the enclosing quantifiers
+	// loopVar: in a loop invariant, a parameter that the loop reassigns denotes its
+	// current value (the header phi); old(p) is its entry value
+	loopVar func(name string) (val, bool)
+	inOld   bool
 	// recSyms: recursive spec functions currently being defined -> their symbol
 	recSyms map[string]string
 }
@@ -31,6 +36,9 @@ type cenv struct {
 // noteLoad records the well-formedness of a term loaded from the heap (refs are
 // allocated, slices are well shaped): an invariant of the memory model.
 func (e *cenv) noteLoad(v val) val {
+	if e.typedLoad(v) {
+		return v // covered by the heap typing axiom of that heap version
+	}
 	if strings.Contains(v.t, "q!") && e.qside != nil {
 		// a load under a quantifier: its well-formedness guards the quantifier body
 		if f := e.g.wf(v.t, v.typ, "", 0); f != "true" {
@@ -48,6 +56,26 @@ func (e *cenv) noteLoad(v val) val {
 		}
 	}
 	return v
+}
+
+var reTypedLoad = regexp.MustCompile(`^\(select (?:\(select )?(H[0-9A-Za-z_!]+) `)
+
+// typedLoad: v is a direct read of a heap version that carries a typing axiom.
+func (e *cenv) typedLoad(v val) bool {
+	b, ok := v.typ.Underlying().(*types.Basic)
+	if !ok || b.Info()&types.IsInteger == 0 {
+		return false
+	}
+	m := reTypedLoad.FindStringSubmatch(v.t)
+	if m == nil {
+		return false
+	}
+	hm := reHeapName.FindStringSubmatch(m[1])
+	if hm == nil {
+		return false
+	}
+	_, typed := e.g.intKeys[hm[1]]
+	return typed
 }
 
 type transErr string
@@ -205,6 +233,7 @@ func (g *fgen) globalKey(v *types.Var) string {
 	k := "G_" + mangle(v.Pkg().Path()+"."+v.Name())
 	if _, ok := g.heapSort[k]; !ok {
 		g.heapSort[k] = g.sortOf(v.Type())
+		g.noteKeyType(k, rootGlobal, v.Type())
 	}
 	return k
 }
@@ -311,6 +340,11 @@ func (e *cenv) bool(x cexpr) string {
 
 func (e *cenv) ident(name string) val {
 	g := e.g
+	if e.loopVar != nil && !e.inOld {
+		if v, ok := e.loopVar(name); ok {
+			return v
+		}
+	}
 	if v, ok := e.vars[name]; ok {
 		return v
 	}
@@ -780,7 +814,17 @@ func (e *cenv) quant(x *cQuant) val {
 						}
 					}
 					if len(bs) > 0 {
-						*e.side = append(*e.side, fmt.Sprintf("(forall (%s) %s)", strings.Join(bs, " "), f))
+						// canonical binder names: identical side facts from different
+						// clause instances collapse
+						ff := f
+						var cb []string
+						for i, b := range bs {
+							fl := strings.Fields(b[1 : len(b)-1])
+							nn := fmt.Sprintf("w!%d", i)
+							ff = replaceSym(ff, fl[0], nn)
+							cb = append(cb, fmt.Sprintf("(%s %s)", nn, strings.Join(fl[1:], " ")))
+						}
+						*e.side = append(*e.side, fmt.Sprintf("(forall (%s) %s)", strings.Join(cb, " "), ff))
 					}
 				}
 			}
@@ -841,6 +885,14 @@ func (e *cenv) convert(v val, t types.Type) val {
 
 func (e *cenv) typeArg(x cexpr) (types.Type, bool) {
 	switch x := x.(type) {
+	case *cUnary:
+		// `*name` with a lower-case type name parses as a dereference
+		if x.op == "*" {
+			if t, ok := e.typeArg(x.x); ok {
+				return types.NewPointer(t), true
+			}
+		}
+		return nil, false
 	case *cTypeX:
 		t, err := e.g.resolveType(x.t, e.pkg)
 		if err != nil {
@@ -897,6 +949,7 @@ func (e *cenv) call(x *cCall) val {
 		}
 		n := *e
 		n.st = e.old
+		n.inOld = true
 		return n.tr(x.args[0])
 	case "len":
 		v := e.tr(x.args[0])
@@ -1238,7 +1291,7 @@ func (e *cenv) specCall(sf *specFunc, args []val) val {
 		for i, p := range sf.params {
 			vars[p.name] = val{args[i].t, ptypes[i], g.sortOf(ptypes[i])}
 		}
-		n := &cenv{g: g, st: e.st, old: e.old, vars: vars, pkg: pkg, nq: e.nq, depth: e.depth + 1, side: e.side, recSyms: e.recSyms}
+		n := &cenv{g: g, st: e.st, old: e.old, vars: vars, pkg: pkg, nq: e.nq, depth: e.depth + 1, side: e.side, qside: e.qside, qbind: e.qbind, inOld: e.inOld, recSyms: e.recSyms}
 		r := n.tr(sf.body)
 		if r.sort == "nil" {
 			r = val{g.zero(rt), rt, g.sortOf(rt)}
